@@ -8,7 +8,6 @@ import (
 
 	"oss.terrastruct.com/d2/d2graph"
 	"verif/h/eng"
-	"verif/h/u"
 )
 
 // gridSpec is the self-contained description of one generated grid diagram.
@@ -139,7 +138,7 @@ func c22Oracle(in string) eng.Res {
 	src := s.source()
 	diagram, g, err := layoutD2(src)
 	if err != nil {
-		return eng.Bad("compile-or-layout-error:"+u.StripDigits(err.Error()), err.Error()+"\n"+src)
+		return eng.Bad(errClass(err), err.Error()+"\n"+src)
 	}
 	prefix := ""
 	var container *d2graph.Object
@@ -342,7 +341,7 @@ func init() {
 	gapVals := []int{-1, 0, 7, 40}
 	eng.Register(&eng.Check{
 		ID: "C22", Level: "exploration", HangBound: 120 * time.Second,
-		QuickBudget: 110 * time.Second, ThoroughBudget: 24 * time.Minute,
+		QuickBudget: 118 * time.Second, ThoroughBudget: 24 * time.Minute,
 		Rule: "every grid spec (cell count n, size pattern in {equal, one wide, one tall, increasing, alternating, one unlabelled container cell, one labelled container cell}, grid-rows x grid-columns in {unset,1,2,3,5}^2 (thorough: {unset,1,2,3,4,5,7,10}^2) minus both-unset, both declaration orders when both are set, grid-gap x vertical-gap x horizontal-gap in {unset,0,7,40}^3 or the stated slice of that cube; bounds per phase are in the phase names) is rendered to D2 text and laid out through d2lib.Compile (d2grid via LayoutNested; dagre for container cells and for the root when the grid is a nested container); checked on the d2graph boxes (exact, 1e-6) and the exported integer boxes (1 px); all specs distinct; non-trivial = at least 2 cells",
 		Assumptions: []string{
 			"cells carry no outside labels or icons (a cell with an outside label is deliberately shrunk by the label margin after layout, which the statement's equal-size clause does not describe); the labelled-container-cell pattern, which d2 gives an outside label, is therefore checked for order, gaps (>=), overlap and containment only",
@@ -410,12 +409,15 @@ func init() {
 				}
 				return false
 			}
+			slice2 := func(gg, vg, hg int) bool {
+				return (gg == -1 && vg == -1 && hg == -1) || (gg == 40 && vg == 7 && hg == 0)
+			}
 			if !w.Thorough() {
-				run("root-grid n<=5 full gap cube", seq(0, 5), pure, rcVals, []string{"root"}, nil)
-				run("root-grid n=6..12 gap slice(8)", seq(6, 12), pure, rcVals, []string{"root"}, slice8)
+				run("root-grid n<=3 full gap cube", seq(0, 3), pure, rcVals, []string{"root"}, nil)
+				run("root-grid n=4..12 gap slice(8)", seq(4, 12), pure, rcVals, []string{"root"}, slice8)
 				rcS := []int{0, 1, 2, 3}
-				run("container-cell n<=4 rows/cols<=3 (dagre, gap slice 4)", seq(1, 4), dagre, rcS, []string{"root"}, slice4)
-				run("nested-grid n<=4 rows/cols<=3 (dagre at root, gap slice 4)", seq(0, 4), []int{patEqual, patIncreasing, patAlternating}, rcS, []string{"box"}, slice4)
+				run("container-cell n<=3 rows/cols<=3 (dagre, gap slice 2)", seq(1, 3), dagre, rcS, []string{"root"}, slice2)
+				run("nested-grid n<=3 rows/cols<=3 (dagre at root, gap slice 2)", seq(0, 3), []int{patEqual, patIncreasing, patAlternating}, rcS, []string{"box"}, slice2)
 			} else {
 				rcT := []int{0, 1, 2, 3, 4, 5, 7, 10}
 				run("root-grid n<=30 rows/cols in {unset,1,2,3,4,5,7,10} full gap cube", seq(0, 30), pure, rcT, []string{"root"}, nil)
